@@ -34,6 +34,7 @@ func c06(r *core.Run) {
 		violated++
 		r.Violate(core.Violation{Stream: pr.Stream, Index: pr.Index, What: what, Sig: sig, Detail: d})
 	}
+	rejectClasses := map[string]int{}
 	run := func(stream string, n uint64, hostile bool) {
 		for from := uint64(0); from < n; from += chunk {
 			to := from + chunk
@@ -56,7 +57,7 @@ func c06(r *core.Run) {
 				r.Add("programs", 1)
 				r.Add("cases", 1)
 				r.Add("files", int64(len(pr.P.Files)))
-				if strings.Contains(pr.GenOut, "panic:") || strings.Contains(pr.GenOut, "fatal error:") || strings.Contains(pr.GenOut, "TIMEOUT") {
+				if strings.Contains(pr.GenOut, "panic:") || strings.Contains(pr.GenOut, "fatal error:") || strings.HasPrefix(pr.GenOut, "TIMEOUT after ") {
 					report(pr, "thriftrw crashed or hung instead of returning an error: "+genlab.ErrorClass(pr.GenOut), "crash", map[string]any{"output": tailStr(pr.GenOut, 3000)})
 					continue
 				}
@@ -66,6 +67,7 @@ func c06(r *core.Run) {
 					report(pr, "a valid program is rejected: "+genlab.ErrorClass(pr.GenOut), "reject:"+genlab.ErrorClass(pr.GenOut), map[string]any{"output": tailStr(pr.GenOut, 2000)})
 				case !pr.GenOK:
 					r.Add("hostile_rejected_with_error", 1)
+					rejectClasses[genlab.ErrorClass(pr.GenOut)]++
 				case !pr.BuildOK:
 					r.Add("accepted_not_compiling", 1)
 					report(pr, "accepted program yields Go that does not compile: "+genlab.ErrorClass(pr.Build), "nocompile:"+genlab.ErrorClass(pr.Build), map[string]any{"compiler": tailStr(pr.Build, 3000)})
@@ -91,6 +93,11 @@ func c06(r *core.Run) {
 	}
 	run("safe", nSafe, false)
 	run("hostile", nHost, true)
+	for i, k := range genlab.SortedKeys(rejectClasses) {
+		if i < 12 {
+			r.Set("hostile_rejected: "+k, int64(rejectClasses[k]))
+		}
+	}
 	if !r.Replay {
 		r.Require("programs", 50)
 		r.Require("accepted_and_compiled", 20)
